@@ -27,8 +27,8 @@ ENTRY = ['lookup', 'lookup1', 'lookupAll', 'names', 'subscriptions',
 
 
 # thorough tier: coverage-guided campaigns on top of the random ones
-ATHERIS = [{'impl': 'py', 'n': 20000, 'name': 'py-atheris'},
-           {'impl': 'c', 'n': 20000, 'name': 'c-atheris'}]
+ATHERIS = [{'impl': 'py', 'n': 6000, 'name': 'py-atheris'},
+           {'impl': 'c', 'n': 6000, 'name': 'c-atheris'}]
 
 
 def configs(tier, seed):
